@@ -303,7 +303,7 @@ impl Model {
         let mut in_replaced = vec![false; n];
         for (i, it) in items.iter().enumerate() {
             if let Item::Disc { replace, .. } = it {
-                if i + replace >= n + usize::from(*replace == 0) && *replace > 0 {
+                if *replace > 0 && i + replace >= n {
                     return Err(format!("discretionary at {i} replaces past the end"));
                 }
                 for j in i + 1..=i + replace {
@@ -930,7 +930,7 @@ mod tests {
         items.push(Item::Penalty(10000));
         items.push(fil_glue());
         let m = Model::new(items.clone(), params(&[30 * PT], 10000), Rule::Tex).unwrap();
-        assert_eq!(m.breaks.iter().map(|b| b.pos).collect::<Vec<_>>(), vec![5, 17]);
+        assert_eq!(m.breaks.iter().map(|b| b.pos).collect::<Vec<_>>(), vec![5, 14]);
         let sol = m.solve_dp();
         assert!(sol.feasible());
         assert_eq!(sol.best_by_lines.keys().copied().collect::<Vec<_>>(), vec![2]);
